@@ -76,7 +76,7 @@ Qed.
 Print Assumptions C09_history_from_loaded.
 
 (* ---- the saved text itself ---- *)
-From AV Require Import model.CFS_tload proofs.CFS_rt_defs proofs.CFS_line_proofs proofs.CFS_ents_inv proofs.CFS_tree_rt proofs.CFS_roundtrip.
+From AV Require Import model.CFS_tload proofs.CFS_rt_defs proofs.CFS_line_proofs proofs.CFS_ents_inv proofs.CFS_tree_rt proofs.CFS_roundtrip proofs.CFS_flush_proofs.
 
 (* Whenever MarshalManifest returns a text, loading that text (the loader of model/CFS_tload.v, which
    every run compares with the inode-table loader and through it with Go's loadManifest) yields a tree
@@ -87,20 +87,31 @@ From AV Require Import model.CFS_tload proofs.CFS_rt_defs proofs.CFS_line_proofs
      tab_ok_b  locators are separator-free tokens stating their block's size, and equal locators name
                equal blocks (no hash collision among the blocks of the case);
      in_tab_b  every block in the store has a locator in the table;
-     ready     after the save's synchronous flush every file reachable from the root holds stored
-               segments only, and the tree is no deeper than its inode table is long. *)
+     deep_ok   the tree being saved is no deeper than its inode table is long (the bound of the
+               model's recursions; acyclicity of the entry graph under Rename is not proved).
+   That the save's synchronous flush has left no buffered segment in any reachable file - without
+   which the text would silently omit data - is proved (C09_successful_save_leaves_nothing_buffered). *)
 Theorem C09_saved_manifest_loads_back : forall mb, 1 <= mb -> forall tab st st1 txt,
   BInv mb st -> EntsOK (Conc mb) (fsys mb st) ->
   b_marshal mb tab st = (st1, Ok txt) ->
   tab_ok_b tab = true -> in_tab_b tab (blocks mb st1) = true ->
-  ready mb (List.length (inodes (Conc mb) (fsys mb st1))) (fsys mb st1) root_id = true ->
+  deep_ok mb (List.length (inodes (Conc mb) (fsys mb st))) (fsys mb st) root_id = true ->
   exists t, t_load tab txt = Some t /\
             listing_T "." t = tree_listing Spec (fun b => b) (abs mb (fsys mb st)).
 Proof.
   intros mb Hmb tab st st1 txt HB HE Em Ht Hi Hr.
-  exact (b_marshal_round_trip mb Hmb tab st st1 txt (tab_ok_b_spec tab Ht) HB HE Em (in_tab_b_spec tab _ Hi) Hr).
+  exact (b_marshal_round_trip mb Hmb tab st st1 txt (tab_ok_b_spec tab Ht) HB HE Em (in_tab_b_spec tab _ Hi)
+           (b_marshal_ready mb Hmb tab st st1 txt HB Em Hr)).
 Qed.
 Print Assumptions C09_saved_manifest_loads_back.
+
+(* A save that returns a text has left no buffered (memSegment) data in any file reachable from the
+   root: every segment the text could mention is a stored one, so the text omits nothing. *)
+Theorem C09_successful_save_leaves_nothing_buffered : forall mb, 1 <= mb -> forall tab st st1 txt,
+  BInv mb st -> b_marshal mb tab st = (st1, Ok txt) ->
+  stored_under mb (List.length (inodes (Conc mb) (fsys mb st))) (fsys mb st1) root_id.
+Proof. intros mb Hmb tab st st1 txt HB E. exact (b_marshal_stored mb Hmb tab st st1 txt HB E). Qed.
+Print Assumptions C09_successful_save_leaves_nothing_buffered.
 
 (* ... in particular after ANY history from the empty collection (BInv and sorted, valid entry names
    are invariants of every history: C09_stored_segments_accounted, bg_history_EntsOK) *)
@@ -108,7 +119,7 @@ Theorem C09_every_save_round_trips : forall mb, 1 <= mb -> forall tab es st1 txt
   let st := bfinal mb tab (binit mb tab (fs_init (Conc mb))) es in
   b_marshal mb tab st = (st1, Ok txt) ->
   tab_ok_b tab = true -> in_tab_b tab (blocks mb st1) = true ->
-  ready mb (List.length (inodes (Conc mb) (fsys mb st1))) (fsys mb st1) root_id = true ->
+  deep_ok mb (List.length (inodes (Conc mb) (fsys mb st))) (fsys mb st) root_id = true ->
   exists t, t_load tab txt = Some t /\
             listing_T "." t = tree_listing Spec (fun b => b) (abs mb (fsys mb st)).
 Proof.
@@ -127,7 +138,7 @@ Theorem C09_every_save_round_trips_from_loaded : forall mb, 1 <= mb -> forall ta
   let st := bfinal mb tab (binit mb tab s0) es in
   b_marshal mb tab st = (st1, Ok txt) ->
   tab_ok_b tab = true -> in_tab_b tab (blocks mb st1) = true ->
-  ready mb (List.length (inodes (Conc mb) (fsys mb st1))) (fsys mb st1) root_id = true ->
+  deep_ok mb (List.length (inodes (Conc mb) (fsys mb st))) (fsys mb st) root_id = true ->
   exists t, t_load tab txt = Some t /\
             listing_T "." t = tree_listing Spec (fun b => b) (abs mb (fsys mb st)).
 Proof.
@@ -151,6 +162,6 @@ Example C09_round_trip_conditions_met :
              EOp (OOpen "g" fl) (VNat 1); EOp (OWrite 1 [4; 5]) (VNat 2)] in
   let st := bfinal mb tab (binit mb tab (fs_init (Conc mb))) es in
   exists st1 txt, b_marshal mb tab st = (st1, Ok txt) /\ tab_ok_b tab = true /\ in_tab_b tab (blocks mb st1) = true /\
-    ready mb (List.length (inodes (Conc mb) (fsys mb st1))) (fsys mb st1) root_id = true /\
+    deep_ok mb (List.length (inodes (Conc mb) (fsys mb st))) (fsys mb st) root_id = true /\
     t_load tab txt = Some (TD [("d", TD [("f", TF [1; 2; 3])]); ("e", TD []); ("g", TF [4; 5])]).
 Proof. cbv zeta. eexists. eexists. split; [vm_compute; reflexivity|]. repeat split; vm_compute; reflexivity. Qed.
